@@ -161,7 +161,7 @@ func ruleC16(c *Ctx) {
 	}
 
 	// C16.3 compositing operator
-	R.Rule("C16.3", "vec.Rasterizer.Draw copies the configured operator into the wrapped rasteriser before drawing with the caller's arguments unchanged, and reverts to draw.Over afterwards, so it applies to the first drawn path only", 3)
+	R.Rule("C16.3", "vec.Rasterizer.Draw copies the configured operator into the wrapped rasteriser before drawing with the caller's arguments unchanged, and reverts to draw.Over afterwards, so it applies to the first drawn path only; no other code in the module writes the configured operator", 4)
 	if fn := c.Method("raster/vec", "Rasterizer", "Draw", true); fn != nil {
 		// SSA order: store inner.DrawOp := load z.DrawOp ; call inner.Draw(z.Dst, r, src, sp) ; store z.DrawOp := Over
 		var order []string
@@ -211,6 +211,41 @@ func ruleC16(c *Ctx) {
 		R.Check(okOver && strings.Join(order, " ; ") == strings.Join(want, " ; "), "vec.(*Rasterizer).Draw#order", c.FPos(fn), strings.Join(want, " ; "), strings.Join(order, " ; "))
 		R.Check(callArgsOK, "vec.(*Rasterizer).Draw#arguments", c.FPos(fn), "inner Draw(z.Dst, r, src, sp) with the caller's arguments", "")
 		R.Check(len(fn.Blocks) == 1, "vec.(*Rasterizer).Draw#straight-line", c.FPos(fn), "no branch: the revert always happens", fmt.Sprint(len(fn.Blocks)))
+	}
+	// the configured operator survives until the first Draw: nothing in the module but Draw's own revert writes it
+	if vt := c.P.Named("raster/vec", "Rasterizer"); vt != nil {
+		var writers []string
+		for _, fn := range c.P.AllFuncs() {
+			if !c.P.FnInModule(fn) {
+				continue
+			}
+			for _, b := range fn.Blocks {
+				for _, ins := range b.Instrs {
+					st, ok := ins.(*ssa.Store)
+					if !ok {
+						continue
+					}
+					fa, ok := st.Addr.(*ssa.FieldAddr)
+					if !ok {
+						continue
+					}
+					pt, ok := fa.X.Type().Underlying().(*types.Pointer)
+					if !ok || !types.Identical(pt.Elem(), vt) {
+						continue
+					}
+					if vt.Underlying().(*types.Struct).Field(fa.Field).Name() != "DrawOp" {
+						continue
+					}
+					if fn.Name() == "Draw" && fn.Signature.Recv() != nil {
+						continue
+					}
+					writers = append(writers, c.P.FuncName(fn)+" at "+c.Pos(ins))
+				}
+			}
+		}
+		R.Check(len(writers) == 0, "vec.Rasterizer.DrawOp#writers", "-", "the operator the caller configured is written only by Draw's revert, so it reaches the first drawn path (Reset, path construction and the renderer leave it alone)", strings.Join(writers, ", "))
+	} else {
+		R.Unknown("vec.Rasterizer.DrawOp#writers", "-", "type vec.Rasterizer not found")
 	}
 }
 
